@@ -24,6 +24,70 @@ type Canon struct {
 	phiStack []*ssa.Phi
 	PhiName  map[*ssa.Phi]string      // optional: fixed names (iteration mode: loop state variables)
 	AllocVal map[*ssa.Alloc]ssa.Value // optional: last value stored into a local along the current path
+	// IndexVal: range-index phis of loops over a fixed list that the current path walks
+	// element by element, with the index of the current iteration.
+	IndexVal map[*ssa.Phi]int64
+}
+
+// rangeIndexOf recognises the index of a range loop in its two SSA spellings (the phi that
+// starts at -1, and phi+1 which is the index inside the body) and returns the phi.
+func rangeIndexOf(v ssa.Value) (ph *ssa.Phi, plusOne bool) {
+	if b, ok := v.(*ssa.BinOp); ok && b.Op == token.ADD {
+		if k, isC := ConstInt(b.Y); isC && k == 1 {
+			if p, ok := b.X.(*ssa.Phi); ok {
+				return p, true
+			}
+		}
+		return nil, false
+	}
+	if p, ok := v.(*ssa.Phi); ok {
+		return p, false
+	}
+	return nil, false
+}
+
+// SplitTop splits s at its top-level commas (quotes and brackets respected).
+func SplitTop(s string) []string {
+	var out []string
+	depth, start := 0, 0
+	inStr := false
+	rs := []rune(s)
+	for i := 0; i < len(rs); i++ {
+		r := rs[i]
+		switch {
+		case inStr:
+			if r == '\\' {
+				i++
+			} else if r == '"' {
+				inStr = false
+			}
+		case r == '"':
+			inStr = true
+		case r == '(' || r == '{' || r == '[' || r == '‹':
+			depth++
+		case r == ')' || r == '}' || r == ']' || r == '›':
+			depth--
+		case r == ',' && depth == 0:
+			out = append(out, string(rs[start:i]))
+			start = i + 1
+		}
+	}
+	if start < len(rs) || len(out) > 0 {
+		out = append(out, string(rs[start:]))
+	}
+	return out
+}
+
+// FixedListElems returns the elements of a canonical list with known content: a private
+// package-level list (list‹a,b›) or a slice literal ({a,b}).
+func FixedListElems(s string) ([]string, bool) {
+	switch {
+	case strings.HasPrefix(s, "list‹") && strings.HasSuffix(s, "›"):
+		return SplitTop(s[len("list‹") : len(s)-len("›")]), true
+	case strings.HasPrefix(s, "{") && strings.HasSuffix(s, "}") && len(s) > 2:
+		return SplitTop(s[1 : len(s)-1]), true
+	}
+	return nil, false
 }
 
 func NewCanon(p *Program) *Canon {
@@ -205,6 +269,11 @@ func (c *Canon) of(v ssa.Value) string {
 		// the index of `for i := range s` (a phi starting at -1 that is incremented before the
 		// test) renders like the index of `for i := 0; i < len(s); i++`
 		if x.Op == token.ADD {
+			if ph, plus := rangeIndexOf(x); ph != nil && plus && c.IndexVal != nil {
+				if k, ok := c.IndexVal[ph]; ok {
+					return fmt.Sprintf("%d", k)
+				}
+			}
 			if k, ok := ConstInt(x.Y); ok && k == 1 {
 				if ph, ok := x.X.(*ssa.Phi); ok && len(ph.Edges) >= 2 {
 					nInit, nBack := 0, 0
@@ -225,6 +294,11 @@ func (c *Canon) of(v ssa.Value) string {
 	case *ssa.Phi:
 		if n, ok := c.PhiName[x]; ok {
 			return n
+		}
+		if c.IndexVal != nil {
+			if k, ok := c.IndexVal[x]; ok {
+				return fmt.Sprintf("%d", k-1)
+			}
 		}
 		if c.PhiEdge != nil {
 			if e, ok := c.PhiEdge[x]; ok {
@@ -410,6 +484,18 @@ func (c *Canon) flatPhiParts(x *ssa.Phi) ([]string, bool) {
 func (c *Canon) elemOf(x, idx ssa.Value) string {
 	if k, ok := ConstInt(idx); ok {
 		return fmt.Sprintf("%s[%d]", c.Of(x), k)
+	}
+	if ph, plus := rangeIndexOf(idx); ph != nil && c.IndexVal != nil {
+		if k, ok := c.IndexVal[ph]; ok {
+			if !plus {
+				k--
+			}
+			xs := c.Of(x)
+			if elems, fixed := FixedListElems(xs); fixed && k >= 0 && int(k) < len(elems) {
+				return elems[k]
+			}
+			return fmt.Sprintf("%s[%d]", xs, k)
+		}
 	}
 	return "elem(" + c.Of(x) + ")"
 }
